@@ -49,7 +49,7 @@ prop("C10",
      level_text="Lean refinement theorem abs_refines (for every sequence of writes/reads/input changes/key presses the bus model equals the abstract address map, which includes the interrupt status read at 0xF9: raised by a key press only - status_only_by_key: no write changes it) with no-aliasing lemmas on the map; the model is tied to bus.rs by exhaustive single operations, all ordered write pairs and random sequences, each also compared with the map directly",
      technique="Lean 4 refinement proof by induction over op lists + exhaustive/random differential against the abstract map",
      exhaustive={"quick": False, "thorough": True},
-     rule="single writes (all 256 addresses x values; quick tier thins RAM-address values to a residue class + 0/255), all 65 536 ordered write-address pairs, every mask byte written to 0xF9 after a key press under 4 earlier masks (status must survive), random sequences of writes/reads/input changes/key presses; each op is applied to the real Bus, to the Lean Bus model and to the abstract address map (spec.* lines), reads also check `bus == clone before the read` on the Rust side",
+     rule="single writes (all 256 addresses x values; quick tier thins RAM-address values to a residue class + 0/255), all 65 536 ordered write-address pairs, every mask byte written to 0xF9 after a key press under 4 earlier masks (status must survive), random sequences of writes/reads/input changes/key presses/board events (jumpers, UIO pins, analog inputs, interrupt-control bytes) with reads of 0xF0-0xFF compared with the model and spec.busstat (reads of 0xF0-0xF3 = what the board itself reports); each op is applied to the real Bus, to the Lean Bus model and to the abstract address map (spec.* lines), reads also check `bus == clone before the read` on the Rust side",
      explanation="abs_refines: for every op sequence the model bus seen through `abs` equals the abstract map; spec_read_write_*: no aliasing in the map; harness: real bus = model = map",
      assumptions=["status registers read at 0xF1-0xF3/0xFA-0xFB are outside the map (C14 covers the board status)", "the CPU's RETI (which clears the key bits of the status) is not a bus operation; C01/C04 cover it"],
      )
@@ -77,7 +77,7 @@ prop("C13",
      harness="c13",
      level_text="Lean theorem no_panic: from a well-formed machine (real stack size, micro-address < 512 - established by new/load) no operation of any sequence panics and every intermediate machine is well-formed; each panic-capable site of the machine code is either an explicit outcome of the model (unreachable! for stack size NotSet, RAM index in load) or discharged by a per-site lemma (4-bit ALU select, 3-bit register numbers, 9-bit micro-address over the whole generated control store, input register index, saturating casts, timer arithmetic). Tied to the code by differential histories with catch_unwind around every call",
      technique="Lean 4 well-formedness invariant + per-site dead-branch lemmas (decide over the generated control store) + differential histories with catch_unwind",
-     rule="random and opcode-biased RAM images (0..240 bytes) x 5 stack sizes x program sizes x random stimulus (interrupt, continue, resets, input/board setters incl. NaN/inf/denormal bit patterns, direct bus reads/writes of every address, mode switches, reloads) interleaved with single edges; every call under catch_unwind and a watchdog (a call that does not return within 20 s is recorded as `hang:` and reported as a concrete violation), full dump compared after every 1-4 ops; distinct = distinct op lines",
+     rule="every byte written to every I/O address followed by reads of all 16 I/O addresses (quick: all bytes on the board ports, every 16th elsewhere); random and opcode-biased RAM images (0..240 bytes) x 5 stack sizes x program sizes x random stimulus (interrupt, continue, resets, input/board setters incl. NaN/inf/denormal bit patterns, direct bus reads/writes of every address, mode switches, reloads) interleaved with single edges; every call under catch_unwind and a watchdog (a call that does not return within 20 s is recorded as `hang:` and reported as a concrete violation), full dump compared after every 1-4 ops; distinct = distinct op lines",
      explanation="what no model can exhibit: stack exhaustion or allocation failure of the Rust runtime (no modelled function recurses or allocates per edge)",
      assumptions=["Rust float->int casts saturate (language semantics)", "debug-assertion/overflow checks are ON in the harness build (profile.release: debug-assertions, overflow-checks)"],
      )
@@ -95,7 +95,7 @@ prop("C09",
      exhaustive={"quick": False, "thorough": True},
      level_text="Lean theorems evaluated by the kernel over the control store regenerated from microprogram_ram_content.rs: the graph of (micro-address, instruction register) nodes over-approximates the real sequencer for every flag/ALU-condition/interrupt input (next_in_succs, step_in_succNodes: one executed edge of the data-path model moves along a graph edge), and the exploration is SOUND for executions (completes_sound / visited_sound: if the exploration of a node set completes within n levels then every execution of the micro-machine model from any visited node - any registers, flags, memory, ALU latch, interrupt flip-flop - reaches a fetch word or the second-opcode word within n steps over programmed words only); every defined first byte and every defined second byte reaches the next fetch within 15 (+3+1 for prefixes) steps visiting programmed words only, the only cycles are the MUL and DIV loops (single back edge each), the undefined first bytes 0x4C-0x4F/0xE0-0xEF form closed fetch-free sets, completes_iff; page_B / page_C (from C01's loop lemmas): every MUL and DIV opcode reaches the next fetch for all operand values, zero divisor included; the next-address function of signals.rs is tied to the model by block hashes over its whole domain (512 x 256 x 16 x 16; quick tier: all programmed addresses + a quarter of the rest), and every opcode is run on the real machine",
      technique="Lean 4 kernel evaluation (decide +kernel) of graph properties over the translated control store + exhaustive differential of the next-address function + opcode enumeration on the real machine",
-     rule="nexthash: FNV hash of next_microprogram_address over 256 IR x 16 flag x 8 ALU-condition x 2 interrupt values per micro-address, real Signals vs model; spec.flow: every first byte (x every defined second byte and a sample of undefined ones for prefixes) executed from a forced boundary with random registers/flags/pending interrupt, observing zero words, page escapes, completion and micro-step count; all 32 MUL/DIV opcodes with boundary operands (0, 1, 2, 0x80, 0xFF) in R0-R2 in every combination; distinct = distinct (opcode, second byte, registers, interrupt) tuples",
+     rule="nexthash: FNV hash of next_microprogram_address over 256 IR x 16 flag x 8 ALU-condition x 2 interrupt values per micro-address, real Signals vs model; spec.flow: every first byte (x every defined second byte and a sample of undefined ones for prefixes) executed from a forced boundary with random registers/flags/pending interrupt, observing zero words, page escapes, completion and micro-step count; a CPU reset after 1..9 edges of every defined opcode (spec.flowreset: first fetch reached in one step over page 0); all 32 MUL/DIV opcodes with boundary operands (0, 1, 2, 0x80, 0xFF) in R0-R2 in every combination; distinct = distinct (opcode, second byte, registers, interrupt) tuples",
      explanation="MUL/DIV loop termination for all 65 536 operand pairs: C01's page_B / page_C (every MUL and DIV opcode reaches the next fetch from any state, by induction over the loop) are part of this property's theorem list; the harness runs MUL/DIV with random and with boundary operands (0, 1, 2, 0x80, 0xFF in every register)",
      assumptions=["level interrupts are constantly absent (Bus::get_level_interrupt returns None in the source)"],
      )
@@ -108,7 +108,7 @@ prop("C07",
      harness="c07",
      level_text="Lean theorems for every machine state (hence after every history): cpuReset_eq / masterReset_eq list every field that is reset to its power-on value and every field that is kept; load_eq (RAM = image ++ zeros, limits, NOSET/AUTO rules); load_history_independent + clockEdge_congr + runs_agree: after a load any machine agrees with a newly created one up to the board, MISR/USR/UART bytes and step mode, and this agreement is preserved by every clock edge whose bus access is confined to RAM and 0xFC-0xFF, so such programs run cycle-for-cycle alike (induction over edges). Tied to the code by random histories with full dumps; resets after every prefix and reload-vs-fresh lock-step runs are also checked against the specification directly",
      technique="Lean 4 field-wise equalities + bisimulation proof (projection invariant preserved by clockEdge) + differential histories, reset-after-every-prefix and reload-vs-fresh lock-step",
-     rule="histories of 20-220 ops from {load, edge, clock, irq, cont, resets, input/board setters, direct bus writes, program-driven port writes to 0xF0-0xFB}; after (nearly) every prefix: spec.cpureset and spec.masterreset on a copy (reset fields printed, kept fields compared before/after); 3 follow-up programs confined to RAM/0xFC-0xFF per history reloaded and compared edge by edge (600 edges) with a newly created machine carrying the same limits; distinct = distinct op lines",
+     rule="histories of 20-220 ops from {load, edge, clock, irq, cont, resets, input/board setters, direct bus writes, program-driven port writes to 0xF0-0xFB}; loads as spec.load (the limits a load leaves behind vs the property: program's stack size unless NOSET, program size / AUTO = image length / unchanged for NOSET); after (nearly) every prefix: spec.cpureset and spec.masterreset on a copy (reset fields printed, kept fields compared before/after); 3 follow-up programs confined to RAM/0xFC-0xFF per history reloaded and compared edge by edge (600 edges) with a newly created machine carrying the same limits; distinct = distinct op lines",
      explanation="Board::master_reset leaves the comparator status bits stale until the next update; neither C07 nor C14 quantifies over that",
      assumptions=["`confined` programs are generated from direct-addressing templates; the theorem covers any program whose accesses are confined"],
      )
@@ -177,7 +177,7 @@ prop("C04",
      exhaustive={"quick": False, "thorough": False},
      level_text="Lean theorems over the regenerated control store: a key press sets the flip-flop iff MICR's key-edge enable bit is set and otherwise only sets a status bit (trigger_*); the flip-flop is untouched by every micro-step that is not an end word (sampled_only_at_end; instr_to_end: for every covered instruction and ANY state of the flip-flop the instruction runs to its end word with exactly Isa.step's effect) - so a request raised in any cycle is looked at only between two instructions; int_taken: with the request pending and IEF set at the end of the instruction the machine reaches, 9 micro-steps later, the first boundary of the routine in state intEntry(result) (FR and next address pushed, upper FR bits cleared, PC = 2) with the flip-flop clear (hence once), with IEF clear the request is dropped; press_any_cycle: the same when the request is raised after ANY number k of executed micro-steps of the instruction (the flip-flop is set between two edges, which is what a key press does) - press_commutes / step_withPend / nextAddr_indep: the flip-flop is read only by words that sample it, setting it commutes with every other step, so the run equals the run with the request pending from the start; reti_entry_roundtrip (specification level): RETI on the stack left by intEntry restores PC, FR incl. IEF and SP. instr_to_end covers every defined instruction incl. MUL and DIV (their loops never touch the flip-flop). Every-cycle sweeps on the real machine check count and transparency",
      technique="Lean 4 symbolic execution of the interrupt-entry routine generic in the end word + per-instruction end-word lemmas (generated) + every-clock-cycle trigger sweep on the real machine",
-     rule="generated main programs (LDSP, MICR enable + EI at a random point, 6-15 random ALU/MUL/DIV/PUSH/POP/memory/output/CMP instructions, optionally DI..EI sections, CALL/RET, final spin loop) with a register-preserving interrupt routine that bumps a RAM counter; the key is pressed at EVERY clock cycle 0..T+6 (one run per cycle): expected count = (MICR key enable at the trigger cycle) AND (IEF as left by the first end word after the trigger), and the final registers, flags, SP, PC, outputs and RAM (without the counter and the dead stack area) must equal the uninterrupted run; pairs of triggers in a 12/40-cycle window: count <= 2 and transparency; the model machine is compared at the trigger and 120 edges after the sampling point; distinct = (program, cycle)",
+     rule="generated main programs (LDSP, MICR enable + EI at a random point, 6-15 random ALU/MUL/DIV/PUSH/POP/memory/output/CMP instructions, optionally DI..EI sections, CALL/RET, final spin loop) with a register-preserving interrupt routine that bumps a RAM counter; the key is pressed at EVERY clock cycle 0..T+6 (one run per cycle): expected count = (MICR key enable at the trigger cycle) AND (IEF as left by the first end word after the trigger), and the final registers, flags, SP, PC, outputs and RAM (without the counter and the dead stack area) must equal the uninterrupted run; pairs of triggers in a 12/40-cycle window: count <= 2 and transparency; a key pressed while the program waits in STOP (0/1/5 edges after the stop, then CONTINUE): the same count rule and transparency; the model machine is compared at the trigger and 120 edges after the sampling point; distinct = (program, cycle)",
      explanation="`enabled` in the property means: enable bit set when the key is pressed and IEF set at the next sampling point; EI, DI and RETI end without sampling (the request stays pending over them)",
      assumptions=["level interrupts absent (stubbed to None in bus.rs)"],
      )
@@ -286,7 +286,7 @@ prop("C17",
      exhaustive={"quick": False, "thorough": False},
      level_text="PARTIAL (drawing of the widgets other than the input line goes through the tui crate, which is not modelled; it is exercised at every terminal size by the headless hook only). Lean theorems on the model of the interactive session (tui/input/mod.rs, parser.rs, tui/mod.rs; every Rust operation that can panic - Vec::insert/remove, indexing, % by zero, usize subtraction, slicing at a byte offset, Buffer index - is an explicit `panic` outcome): handle_good / handle_ok / run_ok - for EVERY sequence of keys and EVERY answer of the path completer the line editor never panics and keeps the cursor inside the text, the history index inside the history and the completion index inside the completion list; render_ok / draw_input_ok / inputWidth_ge - the input line is drawn without a panic and inside its row at every field width >= 8, hence at every terminal size the layout guard admits (minimum sizes and sidebar width regenerated from interface.rs), whatever the text and cursor; session_never_panics / handleEvent_good - no sequence of key events makes the session panic unless a `load` command hits one of the translator/loader panics recorded under C06; parseCmd_wf - whatever line is typed, a parsed command carries a register index < 4, byte values < 256 and a cycle count < 2^64 (nothing is truncated); reg_dec_spec - `FC..FF = <digits>` for EVERY digit string: the denoted value if <= 255, no command otherwise; ctrl_keys / ctrl_other / enter_is_clock / enter_submits / exec_table / next_is_clocks / key_dismisses_note - the event dispatch: control keys = the library calls of the same name, Enter on an empty line = clock key, a submitted line = documented command or rejection with a notification quoting it, each command = the library setter of that name; session_refines_spec - seen from machine and notification every event does what the specification prescribes, given that grammar and documented language agree on the submitted line; cmd_forms_agree - that agreement by kernel evaluation on 69 documented/near-miss forms and all 4681 strings up to length 4 over an 8-character alphabet (a test, labelled as such). Tied to the code through a headless script driver inside the real binary (feature verif-hooks): injected key events go through the real handle_event, drawing through the real Interface into an in-memory backend",
      technique="Lean 4 invariant proof by induction over key sequences (panic-outcome model of the editor, layout arithmetic and dispatch) + characterisation theorems for the nom command grammar + refinement to a token-based command specification + differential sessions through the real binary's headless hook (every key sequence up to a bound, all terminal sizes, command strings over a Unicode alphabet)",
-     rule="script ops executed by the real Tui inside the binary: (A) EVERY sequence of 3 (thorough: 4) keys over 16 keys (characters incl. multi-byte, Enter, Tab/BackTab with scripted completer answers, Backspace, Home/End, arrows, Delete) + one more key, full dump after each; (B) 300/3000 random editing sessions of 5-200 keys incl. wide, zero-width and four-byte characters, control chords, Esc/Insert/F-keys, dump after every (third) key, drawing at random sizes; (C) inputs of 30-300 characters with the cursor moved to every position, the input row compared cell by cell (symbols and highlight) at widths 76-250; (D) 6000/60000 command lines (documented forms x case x blanks x radix x boundary values 255/256, near misses, blank-only lines, random Unicode strings) + every string up to length 4 (5) over 8 characters: `cmd` = real nom parser vs model, `spec.cmd` = vs the documented language; (E) 250/2500 sessions that load programs, submit commands, press control keys / clock / next N: `spec.tmach` = machine dump and notification vs the specification after every event; (F) drawing the whole interface at a grid of / all 25 000 terminal sizes 1x1..250x100 from 6 session states (empty, text, long multi-byte text, notification, memory view with a loaded program, failed load): `spec.tnopanic`; `spec.tsafe` = cursor inside the text after every dump; distinct = distinct op lines",
+     rule="script ops executed by the real Tui inside the binary: (A) EVERY sequence of 3 (thorough: 4) keys over 16 keys (characters incl. multi-byte, Enter, Tab/BackTab with scripted completer answers, Backspace, Home/End, arrows, Delete) + one more key, full dump after each; (B) 300/3000 random editing sessions of 5-200 keys incl. wide, zero-width and four-byte characters, control chords, Esc/Insert/F-keys, dump after every (third) key, drawing at random sizes; (C) inputs of 30-300 characters with the cursor moved to every position, the input row compared cell by cell (symbols and highlight) at widths 76-250; (D) 6000/60000 command lines (documented forms x case x blanks x radix x boundary values 255/256, near misses, blank-only lines, random Unicode strings) + every string up to length 4 (5) over 8 characters: `cmd` = real nom parser vs model, `spec.cmd` = vs the documented language; (E) 250/2500 sessions that load programs, submit commands, press control keys / clock / next N: `spec.tmach` = machine dump and notification vs the specification after every event; (F2) every prefix of every command form in lower/upper/mixed case typed key by key with a draw after each key (the help sidebar depends on the text); (F) drawing the whole interface at a grid of / all 25 000 terminal sizes 1x1..250x100 from 6 session states (empty, text, long multi-byte text, notification, memory view with a loaded program, failed load): `spec.tnopanic`; `spec.tsafe` = cursor inside the text after every dump; distinct = distinct op lines",
      explanation="float arguments outside `digits[.digits]` (signs, exponents, inf/nan) are outside the model: for them only `no panic` is checked (spec.cmdsafe)",
      assumptions=["the path completer's file-system lookup is replaced by scripted answers in hooked builds (same slicing contract as rustyline's complete_path); its own code is not modelled",
                   "unicode-width's table is not modelled: the cell-by-cell row comparison uses one-cell-wide and control characters; wide / zero-width characters are covered by the no-panic draws",
